@@ -2,6 +2,7 @@ package props
 
 import (
 	"crypto/sha256"
+	"errors"
 	"fmt"
 	"math/rand"
 	"runtime"
@@ -329,6 +330,25 @@ func c20History(c *h.Ctx, id string, r *rand.Rand) {
 			_ = cr.eng.DetachHandler(nm.Clone())
 			delete(cr.handlers, nkey(nm))
 			c.Distinct("detach")
+		case k < 91 && len(cr.pend) > 0: // FACE ERROR: the transport reports an error while Interests are pending
+			ev := &c20Event{Ev: "face-error"}
+			cr.hist = append(cr.hist, ev)
+			if pi := h.Guard(func() { _ = cr.face.RaiseError(errors.New("read: connection reset by peer")) }); pi != nil {
+				cr.fail("C20:panic:face-error:"+pi.Frame+":"+pi.Class, "engine panicked in its face error callback: "+pi.Value, nil)
+				return
+			}
+			ev.Observed = fmt.Sprint(cr.fired)
+			// whatever the engine decides to tell the callbacks now, it is their one and only result, and a
+			// Timeout among them is subject to the same rule as any other: not before the lifetime
+			for _, id := range cr.fired {
+				p := cr.pend[id]
+				if len(p.results) == 1 && p.kind == ndn.InterestResultTimeout && p.tResolve.Before(p.tExpress.Add(p.life)) {
+					cr.fail("C20:timeout-too-early", fmt.Sprintf("Interest #%d was reported as timed out %v after it was expressed (on a face error), its lifetime is %v", id, p.tResolve.Sub(p.tExpress), p.life), nil)
+					return
+				}
+			}
+			c.Count("face_errors_with_pending_interests", 1)
+			c.Distinct("face-error")
 		case k < 96: // INCOMING INTEREST
 			nm := pick()
 			if r.Intn(2) == 0 {
